@@ -300,9 +300,12 @@ impl Params {
         }
         r
     }
-    /// 04 || x || y
+    /// 04 || x || y  (the point at infinity: the single byte 00, as in SEC1)
     pub fn g1_bytes(&self, pt: &G1) -> Vec<u8> {
-        let (x, y) = pt.as_ref().expect("g1_bytes(infinity)");
+        let (x, y) = match pt.as_ref() {
+            Some(v) => v,
+            None => return vec![0u8],
+        };
         let mut v = vec![4u8];
         v.extend_from_slice(&be32(x));
         v.extend_from_slice(&be32(y));
